@@ -308,4 +308,61 @@ theorem cloneForModule_wild (g : Opts) (secs : Sections) (qm : List Str)
     rw [hanc, hnone]
     simp
 
+/-! ## the section table of a config file -/
+
+theorem dictAssign_fresh (d : Sections) (k : Pat) (v : Changes) (h : k ∉ d.map Prod.fst) :
+    dictAssign d k v = d ++ [(k, v)] := by
+  unfold dictAssign
+  rw [lookup_none_of_not_mem d k h]; rfl
+
+theorem dictMerge_fresh (d : Sections) (k : Pat) (v : Changes) (h : k ∉ d.map Prod.fst) :
+    dictMerge d k v = d ++ [(k, v)] := by
+  unfold dictMerge
+  rw [lookup_none_of_not_mem d k h]
+
+/-- fold of fresh assignments is concatenation -/
+theorem fold_fresh (f : Sections → Pat → Changes → Sections)
+    (hf : ∀ d k v, k ∉ d.map Prod.fst → f d k v = d ++ [(k, v)]) (v : Changes) :
+    ∀ (gs : List Pat) (d : Sections), (d.map Prod.fst ++ gs).Nodup →
+      gs.foldl (fun d g => f d g v) d = d ++ gs.map (fun g => (g, v)) := by
+  intro gs
+  induction gs with
+  | nil => intro d _; simp
+  | cons g gs ih =>
+    intro d hn
+    have hg : g ∉ d.map Prod.fst := by
+      intro h
+      have := (List.nodup_append.mp hn).2.2 g h g (by simp)
+      exact this rfl
+    simp only [List.foldl_cons]
+    rw [hf d g v hg, ih (d ++ [(g, v)]) (by simpa [List.append_assoc] using hn)]
+    simp
+
+theorem sections_fresh (f : Sections → Pat → Changes → Sections)
+    (hf : ∀ d k v, k ∉ d.map Prod.fst → f d k v = d ++ [(k, v)]) :
+    ∀ (fs : List FileSection) (d : Sections), (d.map Prod.fst ++ (flatSections fs).map Prod.fst).Nodup →
+      fs.foldl (fun d s => s.1.foldl (fun d g => f d g s.2) d) d = d ++ flatSections fs := by
+  intro fs
+  induction fs with
+  | nil => intro d _; simp [flatSections]
+  | cons s fs ih =>
+    intro d hn
+    have hkeys : (flatSections (s :: fs)).map Prod.fst = s.1 ++ (flatSections fs).map Prod.fst := by
+      simp [flatSections, List.map_map, Function.comp_def]
+    rw [hkeys, ← List.append_assoc] at hn
+    simp only [List.foldl_cons]
+    rw [fold_fresh f hf s.2 s.1 d (List.nodup_append.mp hn).1]
+    rw [ih (d ++ s.1.map (fun g => (g, s.2))) (by
+      simpa [List.map_append, List.map_map, Function.comp_def] using hn)]
+    simp [flatSections, List.append_assoc]
+
+/-- when no pattern is named by two sections, both file formats produce exactly the documented table -/
+theorem sections_faithful_partial (fs : List FileSection) (h : ((flatSections fs).map Prod.fst).Nodup) :
+    iniSections fs = flatSections fs ∧ tomlSections fs = flatSections fs := by
+  constructor
+  · have := sections_fresh dictAssign dictAssign_fresh fs [] (by simpa using h)
+    simpa [iniSections] using this
+  · have := sections_fresh dictMerge dictMerge_fresh fs [] (by simpa using h)
+    simpa [tomlSections] using this
+
 end Config
